@@ -260,3 +260,39 @@ Proof.
   - rewrite H. reflexivity.
   - destruct (N.eqb_spec (p_mode p) 2); [contradiction|]. cbn. eauto.
 Qed.
+
+(* ---------- registry::cleanup_tempfiles (the non-signal variant: iter_mut over all entries) ---------- *)
+Lemma in_keys r id : reg_get r id <> None -> In id (map fst r).
+Proof.
+  induction r as [|[k v] r IH]; cbn [reg_get map fst]; [congruence|].
+  destruct (N.eqb_spec k id); intros H; [now left|right; auto].
+Qed.
+
+Definition after_cleanup (w : world) (i : nat) : world := mstep (ACleanup i) w.
+
+Lemma cleanup_unfold w i p : get_proc w i = Some p ->
+  after_cleanup w i =
+  let rf := cleanup_scan (p_pid p) (p_reg p) (w_fs w) in put w i (set_reg p (fst rf)) (snd rf).
+Proof. intros H. unfold after_cleanup, mstep. cbn [actor]. rewrite H. reflexivity. Qed.
+
+Lemma L_cleanup_removes_registered w i p id t :
+  get_proc w i = Some p ->
+  reg_get (p_reg p) id = Some (RReg t) -> t_owner t = p_pid p ->
+  fs_get (w_fs (after_cleanup w i)) (t_path t) = None.
+Proof.
+  intros Hp Hr Ho. rewrite (cleanup_unfold _ _ _ Hp). cbn zeta. cbn [put w_fs].
+  apply (scan_hit (p_pid p) (map fst (p_reg p)) (p_reg p) (w_fs w) id t); auto.
+  apply in_keys. congruence.
+Qed.
+
+Lemma L_cleanup_touches_only_own_registered w i p path :
+  get_proc w i = Some p ->
+  fs_get (w_fs (after_cleanup w i)) path = fs_get (w_fs w) path \/
+  (fs_get (w_fs (after_cleanup w i)) path = None /\
+   exists id t, reg_get (p_reg p) id = Some (RReg t) /\ t_owner t = p_pid p /\ t_path t = path).
+Proof.
+  intros Hp. rewrite (cleanup_unfold _ _ _ Hp). cbn zeta. cbn [put w_fs].
+  pose proof (scan_fs (p_pid p) (map fst (p_reg p)) (p_reg p) (w_fs w) path) as H. cbn zeta in H.
+  destruct H as [H|[H [id [t [Hin [Hr [Ho Hpa]]]]]]]; [left; exact H|].
+  right. split; [exact H|]. exists id, t. auto.
+Qed.
